@@ -7,9 +7,10 @@ REPO=${VERIF_REPO:-/repo}
 SCRATCH=/var/tmp/dv
 CACHE=/verif/.cache
 mkdir -p "$SCRATCH" "$CACHE/bin"
-HASH=$( (cd "$REPO" && find src Cargo.toml -type f | sort | xargs sha256sum; cd /verif && find vsched/src vsched/Cargo.toml harness/src harness/Cargo.toml -type f | sort | xargs sha256sum) | sha256sum | cut -c1-16)
+HASH=$( (cd "$REPO" && find src Cargo.toml -type f | sort | xargs sha256sum; cd /verif && find vsched/src vsched/Cargo.toml harness/src harness/Cargo.toml probe15/src probe15/Cargo.toml -type f | sort | xargs sha256sum) | sha256sum | cut -c1-16)
 BIN="$CACHE/bin/harness-$HASH"
-if [ -x "$BIN" ]; then echo "$BIN"; exit 0; fi
+PROBE="$CACHE/bin/probe15-$HASH"
+if [ -x "$BIN" ] && [ -x "$PROBE" ]; then echo "$BIN"; exit 0; fi
 rm -rf "$SCRATCH/repo"
 rsync -a --exclude target --exclude .git "$REPO/" "$SCRATCH/repo/"
 printf '\n[dependencies.vsched]\npath = "/verif/vsched"\ndefault-features = false\n' >> "$SCRATCH/repo/Cargo.toml"
@@ -21,10 +22,22 @@ if ! CARGO_NET_OFFLINE=true cargo build --offline >"$CACHE/build.log" 2>&1; then
   grep -E "^error" -A6 "$CACHE/build.log" | head -40 >&2
   exit 3
 fi
+# the C15 probe: same crate copy, vsched std back end (real threads; panics cannot be run under shuttle)
+cd /verif/probe15
+[ -f Cargo.lock ] || cp "$REPO/Cargo.lock" Cargo.lock
+if ! CARGO_NET_OFFLINE=true cargo build --offline >>"$CACHE/build.log" 2>&1; then
+  rm -rf "$SCRATCH/repo"
+  echo "BUILD-FAILED (probe15, see $CACHE/build.log)" >&2
+  grep -E "^error" -A6 "$CACHE/build.log" | head -40 >&2
+  exit 3
+fi
 # keep only the newest few binaries
 ls -t "$CACHE"/bin/harness-* 2>/dev/null | tail -n +6 | xargs -r rm -f
+ls -t "$CACHE"/bin/probe15-* 2>/dev/null | tail -n +6 | xargs -r rm -f
 cp "$CACHE/target/debug/harness" "$BIN"
+cp "$CACHE/target15/debug/probe15" "$PROBE"
 # remove the scratch copy and the crate's own build output (third-party build output is kept)
-CARGO_NET_OFFLINE=true cargo clean --offline -p desync >/dev/null 2>&1 || true
+(cd /verif/harness && CARGO_NET_OFFLINE=true cargo clean --offline -p desync >/dev/null 2>&1 || true)
+(cd /verif/probe15 && CARGO_NET_OFFLINE=true cargo clean --offline -p desync >/dev/null 2>&1 || true)
 rm -rf "$SCRATCH/repo"
 echo "$BIN"
